@@ -97,7 +97,7 @@ CLAIMS["C17"] = dict(
 
 CLAIMS["C15"] = dict(
     text="K-stage: real PipelineManager.submit_next_stage/_submit_next_stage on a real pipeline.json for every combination of 1-4 stages, persisted stage 1..n+1, requested stage 0..n+2, return code in {None,0,1,-1,255}, submission result 0/1: a stage is submitted only for persisted+1 (or 1 at the start), exactly once, with that stage's configuration and output directory; stage number, per-stage return codes and is_complete afterwards are as specified; every other request is refused with pipeline.json byte-identical. "
-    "H-pipeline: whole pipelines of 1-2 (3) stages x 2 jobs through `jade pipeline submit` and the real submit-next-stage invoked by the completing submitter, all schedules of batches/job exits: nothing of stage k+1 is handed to the HPC or started before every job of stage k exited, each transition triggered exactly once, recorded return codes equal the completing submitter's status, pipeline complete only at the end, a duplicate submit-next-stage is refused.",
+    "H-pipeline: whole pipelines of 1-2 (3) stages x 2 jobs through `jade pipeline submit` and the real submit-next-stage invoked by the completing submitter, all schedules of batches/job exits: nothing of stage k+1 is handed to the HPC or started before every job of stage k exited, each transition triggered exactly once, recorded return codes equal the completing submitter's status, pipeline complete only at the end, a duplicate submit-next-stage is refused both after the end and (1-2 stages) injected at any scheduler step while a later stage is queued or running.",
     note=_HN + " JobSubmitter.run_submit_jobs and create_config_from_file are recorders in K-stage only.",
     technique="bounded symbolic execution of the real code with z3 (jsym): solver-chosen stage numbers, return codes and schedules")
 
